@@ -121,7 +121,17 @@ pub fn corpus(a: &Args, rng: &mut Rng, want_bundled: bool) -> Corpus {
         zones.extend(tzcorpus::tzif_files(&format!("{dir}/fat"), "synthetic-fat", &[]));
     }
     if want_bundled || !a.quick() {
-        zones.extend(tzcorpus::dedup(tzcorpus::bundled()));
+        let mut b = tzcorpus::dedup(tzcorpus::bundled());
+        if let Some(n) = a.opt("max-bundled").and_then(|s| s.parse::<usize>().ok()) {
+            // deterministic subsample (seeded)
+            let mut kept = Vec::new();
+            while kept.len() < n && !b.is_empty() {
+                let i = (rng.next() % b.len() as u64) as usize;
+                kept.push(b.swap_remove(i));
+            }
+            b = kept;
+        }
+        zones.extend(b);
     }
     if !a.quick() || a.opt("right").is_some() {
         let mut r = tzcorpus::dedup(tzcorpus::system_right());
@@ -189,7 +199,7 @@ pub fn run_c03(a: &Args) {
         out.finish();
         return;
     }
-    let c = corpus(a, &mut rng, false);
+    let c = corpus(a, &mut rng, true);
     let n_rand = if a.quick() { 12 } else { 200 };
     for z in &c.zones {
         let az = match tzcorpus::load(z) {
@@ -302,7 +312,7 @@ fn offsets_around(az: &AZone, t: i64) -> (i32, i32) {
 pub fn run_c04(a: &Args) {
     let mut out = Out::new(&a.out, "c04", 60_000);
     let mut rng = Rng::new(a.seed, 4);
-    let c = corpus(a, &mut rng, false);
+    let c = corpus(a, &mut rng, true);
     let n_rand = if a.quick() { 10 } else { 200 };
     for z in &c.zones {
         let az = match tzcorpus::load(z) {
@@ -408,7 +418,7 @@ fn iter_event(tz: &TimeZone, start: Timestamp, forward: bool, max_items: usize, 
 pub fn run_c14(a: &Args) {
     let mut out = Out::new(&a.out, "c14", 40_000);
     let mut rng = Rng::new(a.seed, 14);
-    let c = corpus(a, &mut rng, false);
+    let c = corpus(a, &mut rng, true);
     let long = if a.quick() { 60 } else { 20_000 };
     for z in &c.zones {
         let az = match tzcorpus::load(z) {
